@@ -40,7 +40,7 @@ PROPS = {
             "thorough": [J("^vhC02_core_(2x2|3x1)$", preempt=2, samples=6, maxpaths=5000000), J("^vhC10_conc(via)?_|^vhC05_conc_v2$", preempt=1, samples=1, only_msgs="overlapped", maxpaths=5000000)], "bounds": {"threads": 3, "preemptions_quick": 1, "preemptions_thorough": 2}, "assumptions": []},
     "C03": {"quick": [J("^vhC03_(sub_K3|cut_L2)$", samples=4), J("^vhC03_subconc_(2|3)$", preempt=0, samples=1), J("^vhC03_subconc_(2|3)$", preempt=2, samples=1), J("^vhC11_(share|conn)_K4$", samples=2, only_msgs="upstream subscription|source subscription")], "thorough": [J("^vhC03_(sub_K4|cut_L3)$", samples=8), J("^vhC03_subconc_(2|3)$", preempt=0, samples=1), J("^vhC03_subconc_(2|3)$", preempt=3, samples=1), J("^vhC11_(share|conn)_K5$", samples=2, only_msgs="upstream subscription|source subscription")], "bounds": {}, "assumptions": []},
     "C07": {"quick": [J("^vhC07_.*_L2$", samples=4), J("^vhC08_handoff_n(2|5)$", preempt=0, samples=1, only_msgs="lost or duplicated|terminal notification")], "thorough": [J("^vhC07_.*_L3$", samples=8), J("^vhC08_handoff_n(3|5)$", preempt=1, samples=1, only_msgs="lost or duplicated|terminal notification", maxpaths=2000000)], "bounds": {}, "assumptions": []},
-    "C09": {"quick": [J("^vhC09_.*_L2$|^vhC09_multi_T2$", samples=4), J("^vhC09_async_n2$", samples=3, timeshim=True)], "thorough": [J("^vhC09_.*_L3$|^vhC09_multi_T3$", samples=8), J("^vhC09_async_n3$", preempt=1, samples=3, timeshim=True)], "bounds": {}, "assumptions": []},
+    "C09": {"quick": [J("^vhC09_.*_L2$|^vhC09_multi_T2$", samples=4), J("^vhC09_async_n2$", samples=3, timeshim=True), J("^vhC11_share_K4$", samples=2, only_msgs="context other than")], "thorough": [J("^vhC09_.*_L3$|^vhC09_multi_T3$", samples=8), J("^vhC09_async_n3$", preempt=1, samples=3, timeshim=True), J("^vhC11_share_K5$", samples=2, only_msgs="context other than")], "bounds": {}, "assumptions": []},
     "C12": {"quick": [J("^vhC12_.*_L2$|^vhC12_multi_T2$", samples=4)], "thorough": [J("^vhC12_.*_L3$|^vhC12_multi_T3$", samples=8)], "bounds": {}, "assumptions": []},
     "C01": {"quick": [J("^vhC01_.*_L3$", samples=6), J("^vhC04_chain_L2$", samples=2, only_msgs="after a terminal"), J("^vhC02_core_3x1$", preempt=0, samples=2), J("^vhC05_conc_v1$", preempt=0, samples=1, only_msgs="after a terminal")], "thorough": [J("^vhC01_.*_L4$", samples=12), J("^vhC02_core_3x1$", preempt=0, samples=2), J("^vhC02_core_2x2$", preempt=1, samples=2, maxpaths=1500000), J("^vhC05_conc_v1$", preempt=0, samples=1, only_msgs="after a terminal", maxpaths=1500000)],
             "bounds": {"script_length_quick": 3, "script_length_thorough": 4}, "assumptions": []},
